@@ -1,12 +1,14 @@
 import TmVerif.Proofs.LRXRecover
+import TmVerif.Proofs.LRXSafeMain
 /-!
 C19 — error recovery is safe and transparent (property theorems only; what the runtime model
 `Model/LRX.lean` carries: transparency on runs without reported errors, monotone error offsets
-inside the input, the `recovering` counter). Termination/no-panic are not covered here.
+inside the input, the `recovering` counter, panic-freedom and the sufficiency of the internal
+fuels of recovery for certified tables — `C19_no_panic`, `C19_recovery_terminates`).
 Events are stored most-recent-first.
 -/
 namespace TmVerif.LRX
-open TmVerif.LR
+open TmVerif.LR TmVerif.CFG TmVerif.LRSound
 
 /-- One loop iteration of a recovering parser from a configuration satisfying `RecInv` (a non-zero
 `recovering` counter implies an earlier handler call; true initially and preserved) either is the
@@ -112,6 +114,89 @@ theorem C19_accepting_run_is_iter (x : XTables) (inp : Input) (fin : Int) (stop 
     ∃ m, XIter x inp fin stop k c cf m ∧ cf.state = fin :=
   xrunLoop_accept_iter h
 
+/-! ### panic-freedom and termination of recovery
+
+Hypotheses (both decidable, evaluated by the driver on the real tables of every sampled grammar,
+`C19 xvalidate`): `certOk g x.t cert` (the C01 soundness certificate of the core tables) and
+`xwf g x cert xc` (Model/LRXSafe.lean: report ranges inside the right-hand sides, gotos on the error
+symbol respect `past`, every goto after a reduction is a state, and the rank certificate `xc`
+bounding chains of reductions under a fixed lookahead). -/
+
+/-- For certified tables the extended runtime with error recovery never panics: on every token
+string (symbols are terminals other than EOI), for every input `i`, `stopOnError` flag, cancellation
+point `k` and fuel, no index or slice expression of the generated parser is out of range — in the
+main loop (`tmAction[state]`, `stack[len-ln:]`, `applyRule`'s report ranges and `fixTrailingWS`,
+`gotoState`), in `recoverFromError` / `skipBrokenCode` (stack positions, gotos on the error symbol,
+states taken from the stack) and in `reduceAll`'s simulated reductions on the copied stack — and
+none of the internal loops of recovery runs out of the model's fuel (which the model reports as
+`panic` too). -/
+theorem C19_no_panic (g : Grammar) (x : XTables) (cert : Cert) (xc : XCert) (inp : Input)
+    (i : Nat) (stop : Bool) (k fuel : Nat)
+    (hc : certOk g x.t cert = true) (hx : xwf g x cert xc = true)
+    (htok : ∀ tk ∈ inp.toks.toList, 0 < tk.sym ∧ tk.sym < (x.t.nTerms : Int))
+    (hi : i < g.inputs.size) :
+    (xrun x inp i stop k fuel).1 ≠ XResult.panic := by
+  have hcf := certFacts hc
+  have hxf := xFacts hx
+  unfold xrun
+  cases hfin : x.t.finalStates[i]? with
+  | none =>
+    have := hcf.fin
+    have hlt : i < x.t.finalStates.size := by omega
+    rw [Array.getElem?_eq_getElem hlt] at hfin
+    cases hfin
+  | some fin =>
+    exact xrunLoop_no_panic hcf hxf htok fin stop k fuel _ (xinv_xinit inp i hi)
+
+/-- Every configuration the loop reaches from the initial one satisfies the invariant `XInv`
+(Proofs/LRXSafeStep.lean): the states on the stack form a path of transitions of the tables that
+respects the `past` certificate, and `next` is the token before `pos`. -/
+theorem C19_invariant_reachable (g : Grammar) (x : XTables) (cert : Cert) (xc : XCert) (inp : Input)
+    (i : Nat) (fin : Int) (stop : Bool) (k : Nat) (c : XCfg) (m : Nat)
+    (hc : certOk g x.t cert = true) (hx : xwf g x cert xc = true)
+    (htok : ∀ tk ∈ inp.toks.toList, 0 < tk.sym ∧ tk.sym < (x.t.nTerms : Int))
+    (hi : i < g.inputs.size) (h : XIter x inp fin stop k (xinit inp i) c m) :
+    XInv g x cert inp c :=
+  h.inv (certFacts hc) (xFacts hx) htok (xinv_xinit inp i hi)
+
+/-- Recovery's own loops terminate within the fuel the model gives them — their out-of-fuel
+branches are unreachable: from any configuration `c` satisfying the invariant (all reachable ones
+do, `C19_invariant_reachable`; so do the configurations recovery itself passes on),
+* `skipBroken` returns the same result with any surplus fuel (each iteration consumes a token);
+* `recoverLoop`, for any list `rp` of recovery positions as `recoverFromError` computes them,
+  returns a result (`some …`, not the out-of-fuel/panic `none`) which does not depend on surplus
+  fuel (every round but the first consumes a token);
+* `reduceAllLoop` on any certified state stack — the calls recovery makes have this form — returns
+  a result that does not depend on surplus fuel (the potential `height + rank` of the certificate
+  decreases with every simulated reduction).
+What remains open is only the main loop's own fuel (chains of real reductions). -/
+theorem C19_recovery_terminates (g : Grammar) (x : XTables) (cert : Cert) (xc : XCert) (inp : Input)
+    (fin : Int) (c : XCfg)
+    (hc : certOk g x.t cert = true) (hx : xwf g x cert xc = true)
+    (htok : ∀ tk ∈ inp.toks.toList, 0 < tk.sym ∧ tk.sym < (x.t.nTerms : Int))
+    (hrec : x.recovering = true) (hinv : XInv g x cert inp c) :
+    (∀ can e extra, skipBroken inp can (inp.toks.size + 2 + extra) c e =
+        skipBroken inp can (inp.toks.size + 2) c e) ∧
+    (∀ rp, RPOk x c.stack rp → ∀ syms s e, ∃ res, ∀ extra,
+        recoverLoop x inp fin rp (inp.toks.size + 3 + extra) c syms s e = some res) ∧
+    (∀ (q : Nat) (sts : List Nat) (syms : List Int) (a : Nat), StOk g x cert (q :: sts) syms →
+        a < x.t.nTerms → ∃ b, ∀ extra,
+        reduceAllLoop x a fin (4 * ((sts.map Int.ofNat).length + x.t.nStates + 4) + extra)
+          (sts.map Int.ofNat) [(q : Int)] q = some b) := by
+  have hcf := certFacts hc
+  have hxf := xFacts hx
+  refine ⟨?_, ?_, ?_⟩
+  · intro can e extra
+    obtain ⟨_, _, _, _, _, _, hn⟩ := hinv
+    exact (skipBroken_spec inp can (inp.toks.size + 2) c e hn (by omega) (by omega)).2.2.2.2.2.2 extra
+  · intro rp hrp syms s e
+    obtain ⟨res, _, hres⟩ := recoverLoop_total hcf hxf hrec htok fin rp (inp.toks.size + 3) c syms s e
+      hinv hrp (by omega) (by omega) (Or.inr (by omega))
+    exact ⟨res, hres⟩
+  · intro q sts syms a hst ha
+    obtain ⟨b, _, hb, _⟩ := reduceAll_total hcf hxf ha fin hst
+    exact ⟨b, hb⟩
+
 /-! ### non-vacuity
 
 Tables of a parser generated by the real toolchain for a random grammar with recovery rules (taken
@@ -175,5 +260,38 @@ example : ∃ c' m, XIter rX badInp 16 false 0 (xinit badInp 0) c' m ∧ errCoun
     (by rw [← hacc])
   exact ⟨_, m, hi, hcnt,
     C19_shifts_between_handler_calls rX badInp 16 false 0 _ _ m hi (by decide) (by rw [hcnt]; decide)⟩
+
+/-! Non-vacuity of `C19_no_panic` / `C19_recovery_terminates`: real tables of the toolchain for
+`S : 't2' S | %empty | error 't4'` (6 terminals, `error` = 5, recovery token {4}, optimized
+encoding; a `C19 xvalidate` case). Both certificates check, the broken input `t2 t3 t3 t4` makes
+the handler fire and recovery skip two tokens, and the theorem applies. -/
+private def sG : Grammar :=
+  { nTerms := 6, nSyms := 7, rules := #[⟨6, [2, 6], 0⟩, ⟨6, [], 0⟩, ⟨6, [5, 4], 0⟩], inputs := #[⟨6, true⟩] }
+private def sT : Tables :=
+  { nTerms := 6, action := #[-3,-11,-1,0,2,-1,-2], lalr := #[2,-1,5,-1,0,1,-1,-2,2,-1,5,-1,0,1,-1,-2], goto_ := #[0,2,2,6,6,8,12,16], fromTo := #[5,6,0,1,1,1,2,4,0,2,1,2,0,5,1,3], ruleLen := #[2,0,2], ruleSymbol := #[6,6,6], finalStates := #[6], optimized := true, oDefGoto := #[-1], oGoto := #[3], oDefAct := #[-1,-1,-1,0,2,-1,-1], oAction := #[0,0,-3,-6,-6,6,-6], oBase := -6, oTable := #[1,-6,-3,5,3,-4,-8], oCheck := #[0,4,2,0,1,5,0] }
+private def sX : XTables :=
+  { t := sT, rules := #[{ruleType := 1}, {ruleType := 2}, {ruleType := 3}], recovering := true, errSym := 5, afterErr := [4] }
+private def sCert : Cert :=
+  { past := #[[], [2], [5], [6, 2], [4, 5], [6], [0, 6]], reach := #[[6, 4, 3, 5, 2, 1, 0]] }
+private def sXC : XCert :=
+  { weight := 1, rank := #[#[4, 4, 0, 2, 2, 2, 0], #[0, 0, 0, 0, 0, 0, 0], #[0, 0, 0, 0, 0, 0, 0], #[0, 0, 0, 0, 0, 0, 0], #[0, 0, 0, 0, 0, 0, 0], #[0, 0, 0, 0, 0, 0, 0]] }
+private def sBad : Input := { toks := #[⟨2,0,1⟩, ⟨3,1,2⟩, ⟨3,2,3⟩, ⟨4,3,4⟩], endOff := 4 }
+
+example : certOk sG sT sCert = true ∧ xwf sG sX sCert sXC = true ∧ sX.recovering = true ∧
+    (∀ tk ∈ sBad.toks.toList, 0 < tk.sym ∧ tk.sym < (sX.t.nTerms : Int)) ∧
+    (xrun sX sBad 0 false 0 100).1 = .accept ∧ errOffs (xrun sX sBad 0 false 0 100).2.evs = [1] := by
+  decide +kernel
+
+example : (xrun sX sBad 0 false 0 100).1 ≠ XResult.panic :=
+  C19_no_panic sG sX sCert sXC sBad 0 false 0 100 (by decide +kernel) (by decide +kernel)
+    (by decide +kernel) (by decide +kernel)
+
+/-- `C19_recovery_terminates` at the initial configuration of that run -/
+example : ∀ extra, skipBroken sBad (fun _ => false) (sBad.toks.size + 2 + extra) (xinit sBad 0) 0 =
+    skipBroken sBad (fun _ => false) (sBad.toks.size + 2) (xinit sBad 0) 0 :=
+  fun extra => (C19_recovery_terminates sG sX sCert sXC sBad 6 (xinit sBad 0) (by decide +kernel)
+    (by decide +kernel) (by decide +kernel) rfl
+    (C19_invariant_reachable sG sX sCert sXC sBad 0 6 false 0 _ 0 (by decide +kernel)
+      (by decide +kernel) (by decide +kernel) (by decide +kernel) (.refl _))).1 _ 0 extra
 
 end TmVerif.LRX
